@@ -1869,6 +1869,8 @@ class FnTranslator:
             if bt[0] == "map" and bt[1] == ("str",) and e[2] == "remove":
                 k, kt = self.expr(e[4][0], env, pre, ("str",)); self.check_ty(kt, ("str",), "map key")
                 return self.place_set(recv, "(Rs.smapRemove %s %s)" % (base, k), env, pre)
+            if bt[0] == "map" and bt[1] == ("str",) and e[2] == "clear" and not e[4]:
+                return self.place_set(recv, "[]", env, pre)      # (b1617, round 9) BTreeMap<String, V>::clear
             if e[2] == "copy_from_slice" and len(e[4]) == 1:
                 dst = recv
                 while dst[0] in ("paren", "ref"): dst = dst[1]
